@@ -41,13 +41,13 @@ def run(rep, tier, seed, rng):
             if len(r["impl"]["builds"]) >= 2: distinct.add(json.dumps(c, sort_keys=True))
         if r["tags"] & {"crash", "rc", "predicted-panic", "ninja", "configured"}:
             ndis += 1
-            rep.violation("model and implementation disagree: " + "; ".join(r["dis"])[:400], gen_common.replay_data(r), found_input=False)
+            rep.violation("model and implementation disagree: " + "; ".join(r["dis"])[:400], gen_common.replay_data(r), found_input=("crash" in r["tags"]))
         if r["model"]["kind"] == "ok" and r["model"].get("wf") is False and r["impl_parsed"] is not None:
             # the model's own file fails wf_manifestb: only acceptable for the user-chosen class
             _, clash = mc.download_dirs(c[0])
             if not any(u or any(mc.norm(dt).startswith(d + "/") for d in clash)
                        for _, dt, u in mc.wf_manifest(r["model_parsed"], [b["out"] for b in r["model"]["builds"]])):
-                rep.violation("model file fails wf_manifestb outside the known class", gen_common.replay_data(r), found_input=False)
+                rep.violation("model file fails wf_manifestb outside the known class", gen_common.replay_data(r), found_input=("crash" in r["tags"]))
     # other build directories (-B): the paths laze chooses follow ${build-dir}
     bcases = []
     for _ in range(30 if tier == "quick" else 400):
@@ -60,7 +60,7 @@ def run(rep, tier, seed, rng):
         nbd += 1
         if r["tags"] & {"crash", "rc", "predicted-panic", "ninja", "configured"}:
             ndis += 1
-            rep.violation("model and implementation disagree with -B %s: %s" % (c["build_dir"], "; ".join(r["dis"])[:300]), gen_common.replay_data(r), found_input=False)
+            rep.violation("model and implementation disagree with -B %s: %s" % (c["build_dir"], "; ".join(r["dis"])[:300]), gen_common.replay_data(r), found_input=("crash" in r["tags"]))
         parsed = r.get("impl_parsed")
         if parsed is not None:
             for clause, detail in mc.under_builddir(parsed, c["build_dir"]):
